@@ -29,7 +29,7 @@ pub fn prop() -> Prop {
 }
 
 fn describe(ctx: &Ctx) {
-    ctx.rule("sources: corpus files (29 multi-sheet) and generated multi-sheet workbooks saved by the library, opened with read_reader(.., false); histories of 0..10 operations over read_sheet, get_sheet_mut, get_sheet_by_name_mut, read_sheet_collection, cell edit, new_sheet, remove_sheet, set_sheet_name, workbook-level insert/remove row, then save and eager reload; oracle: differential against the eagerly opened twin driven by the same history + untouched sheets equal the original + edits present. Non-trivial = at save time >=1 sheet is still unloaded and the history has >=1 edit or sheet-list change; distinct by full case");
+    ctx.rule("sources: corpus files (29 multi-sheet) and generated multi-sheet workbooks saved by the library, opened with read_reader(.., false); histories of 0..10 operations over read_sheet, get_sheet_mut, get_sheet_by_name_mut, read_sheet_collection, cell edit, new_sheet, remove_sheet, set_sheet_name, workbook-level insert/remove row, then save and eager reload; oracle: differential against the eagerly opened twin driven by the same history + untouched sheets equal the original + edits present + Python leg (the lazily saved file passes the independent package validator; every sheet that was not edited decodes - cells, resolved styles, merges, hyperlinks, comments, validation/cf ranges - like the same sheet of the original file). Non-trivial = at save time >=1 sheet is still unloaded and the history has >=1 edit or sheet-list change; distinct by full case");
     ctx.assume("which sheets are materialised is tracked by the harness from the documented effect of each operation (is_deserialized is not public)");
     ctx.assume("sheets copied raw are compared with re-serialised ones on the semantic projection plus the style rendering of every cell whose eager twin has a non-default style (a cell written without s= and one written with s=\"0\" mean the same)");
 }
@@ -399,6 +399,28 @@ fn check(case: &Case, obs: &mut Obs) -> Verdict {
         Ok(b) => b,
         Err(v) => return v,
     };
+    // Python leg: the lazily saved file is a valid package, and every sheet no operation
+    // edited - still raw or materialised - decodes (cells, styles resolved through cellXfs,
+    // merges, hyperlinks, comments, validation / conditional-format ranges) like the same
+    // sheet of the original file, wherever it now stands in the sheet list
+    {
+        let untouched: Vec<(usize, usize, bool)> = track_l.iter().enumerate().filter_map(|(i, t)| match (t.orig, t.edited) {
+            (Some(o), false) => Some((i, o, !t.loaded)),
+            _ => None,
+        }).collect();
+        // big workbooks (a gigabyte per decode) go through the Python leg one at a time, and
+        // only for a fixed eighth of the cases that use them (chosen by the case content)
+        let big = original.sheets.iter().map(|s| s.cells.len()).sum::<usize>() > crate::props::pyleg::BIG_CELLS;
+        let sampled_out = big && fnv(serde_json::to_string(case).unwrap_or_default().as_bytes()) % 8 != 0;
+        if sampled_out {
+            obs.class("python-leg:skipped-big-workbook");
+        } else {
+            obs.class(if big { "python-leg:big-workbook" } else { "python-leg" });
+            if let Err(d) = crate::props::pyleg::c11_leg(src, &bytes, &be, &bl, &untouched, big) {
+                return Verdict::fail(d.key, d.detail);
+            }
+        }
+    }
     if re.get_sheet_count() != rl.get_sheet_count() {
         return Verdict::fail(format!("{}/saved/sheet-count", src), format!("eager {} lazy {}", re.get_sheet_count(), rl.get_sheet_count()));
     }
